@@ -15,7 +15,7 @@ Extraction "model.ml"
   Pack.pack Pack.pack_dir Pack.set_tag Pack.rread_two_step
   Unpack.unpack Unpack.unpack_dir Unpack.unpack_alloc
   Seq.seq_step Seq.conn_init Seq.start_cfg Seq.tfid Seq.takes_fid Seq.is_tattach Seq.ver_u Seq.ver_p
-  SeqSpec.spec_step SeqSpec.vget SeqSpec.rules_ok SeqSpec.fid_ok SeqSpec.is_valid
+  SeqSpec.spec_step SeqSpec.ospec_step SeqSpec.tspec_step SeqSpec.vget SeqSpec.rules_ok SeqSpec.fid_ok SeqSpec.is_valid
   Recv.srv_run Recv.clnt_run Recv.srv_frames Recv.clnt_frames
   DirWindow.dir_window DirWindow.listing DirWindow.readdir_chunks IO.frun IO.open_iounit Version.clnt_connect Version.clnt_version_request Version.twrite_frame_len Version.tread_count Version.rread_frame_len
   Path.attach_path Path.ufs_walk Path.create_path Path.rename_dest Path.symlink_ok Path.symlink_resolves Path.clean Path.split_slash Path.fwalk
